@@ -282,8 +282,7 @@ def legacy_ti_desc(draw):
     if version == "0.0":
         desc = draw(tim.tree_desc(max_depth=1, family_filter=tim.plain_family).filter(
             lambda d: "-" not in d["release"]["version"] and "_" not in d["release"]["version"]
-            and all(_plain(n["paths"].get(k)) for n in d["variants"] for k in tim.PATH_KINDS)
-            and not ((d["stage2"] or {}).get("instimage") or "").startswith("/")))
+            and all(_plain(n["paths"].get(k)) for n in d["variants"] for k in tim.PATH_KINDS)))
         desc["layered"], desc["base_product"] = False, None
     elif version == "0.3":
         # the 0.3 reader looks a variant's options up by UID and then by ID: a file in which some variant's id is another
@@ -365,6 +364,6 @@ def legacy_ti_expected(case):
         paths["packages"], paths["repository"] = pk, repo
     vid = main_uid.split("-")[-1]
     return {"release": {"name": desc["release"]["name"], "short": "", "version": desc["release"]["version"], "is_layered": False},
-            "tree": {"arch": t["arch"], "build_timestamp": int(t["build_timestamp"]), "platforms": sorted(set([t["arch"]]) | set(desc["images"]))},
+            "tree": {"arch": t["arch"], "build_timestamp": int(t["build_timestamp"]), "platforms": sorted(set([t["arch"]]) | set(t["platforms"]) | set(desc["images"]))},
             "variants": {main_uid: {"id": vid, "uid": main_uid, "name": vid, "type": "variant", "paths": paths, "parent": None, "children": {}}},
             "images": snap["images"], "stage2": snap["stage2"], "media": {"discnum": None, "totaldiscs": None}, "checksums": snap["checksums"]}
